@@ -17,7 +17,7 @@ use std::collections::BTreeMap;
 use std::sync::atomic::{AtomicU64, AtomicUsize, Ordering};
 use std::sync::{Arc, Mutex};
 use std::thread::{self, JoinHandle, Thread};
-use std::time::{Duration, Instant};
+use std::time::Duration;
 
 const MAIN: usize = usize::MAX;
 pub const N_SITES: usize = a5::verif::site::COUNT as usize;
@@ -65,6 +65,10 @@ pub struct RunStats {
     pub forced_start: u64,
     #[serde(default)]
     pub blocked_handoffs: u64,
+    #[serde(default)]
+    pub clock_jumps: u64,
+    #[serde(default)]
+    pub teardown_ops: u64,
     pub hash_rekey: u64,
     pub poison_ops: BTreeMap<String, u64>,
     pub caught_panic_same: u64,
@@ -386,6 +390,11 @@ impl Shared {
     }
 
     fn op_done(self: &Arc<Self>, me: usize, step: usize, rep: u32, op_ix: u32, got: Outcome, view: Option<Foot>) {
+        self.op_done2(me, step, rep, op_ix, got, view, true)
+    }
+
+    #[allow(clippy::too_many_arguments)]
+    fn op_done2(self: &Arc<Self>, me: usize, step: usize, rep: u32, op_ix: u32, got: Outcome, view: Option<Foot>, then_schedule: bool) {
         self.progress.fetch_add(1, Ordering::Relaxed);
         self.rejoin(me);
         let mut st = self.st.lock().unwrap_or_else(|e| e.into_inner());
@@ -499,8 +508,52 @@ impl Shared {
             st.abort = true;
         }
         drop(st);
-        self.sched_point(me, Point::OpDone);
+        if then_schedule {
+            self.sched_point(me, Point::OpDone);
+        }
     }
+
+    /// The simulated thread is done: mark it and hand the baton on.
+    fn finish(self: &Arc<Self>, me: usize) {
+        {
+            let mut st = self.st.lock().unwrap_or_else(|e| e.into_inner());
+            st.th[me].life = Life::Exited;
+            st.stats.thread_exit += 1;
+        }
+        self.sched_point(me, Point::Exit);
+    }
+}
+
+/// Lives in a thread-local of the simulated thread. Its destructor runs while the thread is
+/// being torn down - before or after the library's own thread-locals, depending on when it was
+/// registered - issues the thread's `exit_ops` from there (a caller's per-thread buffer that is
+/// flushed on exit does exactly this), and only then gives up the baton.
+struct ExitGuard {
+    sh: Arc<Shared>,
+    me: usize,
+}
+
+impl Drop for ExitGuard {
+    fn drop(&mut self) {
+        let plan = &self.sh.scen.threads[self.me];
+        let base = plan.steps.len();
+        SUPPRESS.with(|s| s.set(true));
+        for (k, op_ix) in plan.exit_ops.iter().enumerate() {
+            if self.sh.st.lock().unwrap_or_else(|e| e.into_inner()).abort {
+                break;
+            }
+            let op = &self.sh.scen.ops[*op_ix as usize];
+            self.sh.st.lock().unwrap_or_else(|e| e.into_inner()).th[self.me].current = Some((base + k, 0, *op_ix));
+            let got = exec(op, &self.sh.env);
+            self.sh.st.lock().unwrap_or_else(|e| e.into_inner()).stats.teardown_ops += 1;
+            self.sh.op_done2(self.me, base + k, 0, *op_ix, got, None, false);
+        }
+        self.sh.finish(self.me);
+    }
+}
+
+thread_local! {
+    static EXIT_GUARD: RefCell<Option<ExitGuard>> = const { RefCell::new(None) };
 }
 
 fn sim_thread(sh: Arc<Shared>, me: usize) {
@@ -545,6 +598,11 @@ fn sim_thread_inner(sh: Arc<Shared>, me: usize) {
     CTX.with(|c| *c.borrow_mut() = Some((sh.clone(), me)));
     a5::verif::set_hash_key(sh.scen.threads[me].hash_key);
     a5::verif::set_yield_hook(Some(yield_hook));
+    let has_exit_ops = !sh.scen.threads[me].exit_ops.is_empty();
+    if has_exit_ops && sh.scen.threads[me].exit_guard_early {
+        // registered before any library call: destroyed after the library's thread-locals
+        EXIT_GUARD.with(|g| *g.borrow_mut() = Some(ExitGuard { sh: sh.clone(), me }));
+    }
     sh.wait_baton(me);
     let plan = &sh.scen.threads[me];
     let mut prev_view: Option<Foot> = None;
@@ -561,6 +619,9 @@ fn sim_thread_inner(sh: Arc<Shared>, me: usize) {
                     if let Some(k) = step.rekey {
                         a5::verif::set_hash_key(k);
                         st.stats.hash_rekey += 1;
+                    }
+                    if step.clock_jump_ms > 0 && crate::procs::clock_advance(step.clock_jump_ms as i64 * 1_000_000) {
+                        st.stats.clock_jumps += 1;
                     }
                 }
             }
@@ -606,12 +667,16 @@ fn sim_thread_inner(sh: Arc<Shared>, me: usize) {
         }
     }
     a5::verif::set_yield_hook(None);
-    {
-        let mut st = sh.st.lock().unwrap_or_else(|e| e.into_inner());
-        st.th[me].life = Life::Exited;
-        st.stats.thread_exit += 1;
+    if has_exit_ops {
+        if !plan.exit_guard_early {
+            // registered after the last library call: destroyed before the library's thread-locals
+            EXIT_GUARD.with(|g| *g.borrow_mut() = Some(ExitGuard { sh: sh.clone(), me }));
+        }
+        // the guard's destructor issues the exit ops and then gives up the baton
+        CTX.with(|c| *c.borrow_mut() = None);
+        return;
     }
-    sh.sched_point(me, Point::Exit);
+    sh.finish(me);
     CTX.with(|c| *c.borrow_mut() = None);
 }
 
@@ -674,18 +739,19 @@ pub fn run(scen: &Scenario, schedule: Schedule, tracing: bool) -> RunOut {
         sh.baton.store(MAIN - 1, Ordering::Release);
         sh.sched_point(MAIN, Point::Begin);
         let mut last = sh.progress.load(Ordering::Relaxed);
-        let mut since = Instant::now();
+        // CLOCK_MONOTONIC_RAW: the scenario may make the ordinary clocks jump
+        let mut since = crate::procs::raw_now_ns();
         let mut asleep_polls = 0u32;
         while sh.baton.load(Ordering::Acquire) != MAIN {
             thread::park_timeout(Duration::from_millis(2));
             let p = sh.progress.load(Ordering::Relaxed);
             if p != last {
                 last = p;
-                since = Instant::now();
+                since = crate::procs::raw_now_ns();
                 asleep_polls = 0;
                 continue;
             }
-            let idle = since.elapsed();
+            let idle = Duration::from_nanos((crate::procs::raw_now_ns() - since).max(0) as u64);
             // is the baton holder asleep in the kernel (waiting for a real lock)? A thread that is
             // merely slow is in state R and is left alone.
             let holder_tid = {
@@ -719,7 +785,7 @@ pub fn run(scen: &Scenario, schedule: Schedule, tracing: bool) -> RunOut {
                             st.stats.switches += 1;
                             sh.pass_to(&mut st, chosen);
                             drop(st);
-                            since = Instant::now();
+                            since = crate::procs::raw_now_ns();
                             continue;
                         }
                     }
